@@ -337,7 +337,7 @@ func exec(line string) string {
 	o := hx.Parse(line)
 	r := exec1(o)
 	if o.Has("expect") {
-		if strings.HasSuffix(r, "cmp="+o.Str("expect")) {
+		if strings.Contains(r, " cmp="+o.Str("expect")+" cmp2="+o.Str("expect")+" ") {
 			return r + " kat=ok"
 		}
 		return r + " kat=IMPL-MISMATCH"
@@ -346,24 +346,37 @@ func exec(line string) string {
 }
 
 func exec1(o hx.Op) string {
+	mut := mutated{}
 	switch o.Cmd {
 	case "gen":
-		h, err := generate(o.Hex("pw"), o.Int("cost"), o.Hex("rnd"))
+		ar, in := build(spec{name: "pw", data: o.Hex("pw"), spare: 8}, spec{name: "rnd", data: o.Hex("rnd"), spare: 4})
+		h, err := generate(in[0], o.Int("cost"), in[1])
+		mut.add(ar.changed())
 		if err != nil {
-			return class(err)
+			return class(err) + " " + mut.String()
 		}
-		return "ok " + hx.Hex(h)
+		return "ok " + hx.Hex(h) + " " + mut.String()
 	case "cost":
-		h := o.Hex("hash")
-		return "cost=" + hx.Catch(func() string {
-			c, err := bcrypt.Cost(h)
-			if err != nil {
-				return class(err)
-			}
-			return strconv.Itoa(c)
-		})
+		ar, in := build(spec{name: "hash", data: o.Hex("hash"), spare: 8})
+		one := func() string {
+			r := hx.Catch(func() string {
+				c, err := bcrypt.Cost(in[0])
+				if err != nil {
+					return class(err)
+				}
+				return strconv.Itoa(c)
+			})
+			mut.add(ar.changed())
+			return r
+		}
+		c1 := one()
+		c2 := one()
+		return fmt.Sprintf("cost=%s cost2=%s %s", c1, c2, mut)
 	case "cmp":
-		h, pw := o.Hex("hash"), o.Hex("pw")
+		// hash and password are windows of one arena with sentinel-filled spare capacity; Cost, then
+		// Compare TWICE on the very same hash slice (a call must not damage the caller's stored hash)
+		ar, in := build(spec{name: "hash", data: o.Hex("hash"), spare: 8}, spec{name: "pw", data: o.Hex("pw"), spare: 8})
+		h, pw := in[0], in[1]
 		cs := hx.Catch(func() string {
 			c, err := bcrypt.Cost(h)
 			if err != nil {
@@ -371,8 +384,12 @@ func exec1(o hx.Op) string {
 			}
 			return strconv.Itoa(c)
 		})
+		mut.add(ar.changed())
 		cm := hx.Catch(func() string { return class(bcrypt.CompareHashAndPassword(h, pw)) })
-		return fmt.Sprintf("cost=%s cmp=%s", cs, cm)
+		mut.add(ar.changed())
+		cm2 := hx.Catch(func() string { return class(bcrypt.CompareHashAndPassword(h, pw)) })
+		mut.add(ar.changed())
+		return fmt.Sprintf("cost=%s cmp=%s cmp2=%s %s", cs, cm, cm2, mut)
 	}
 	return "bad-op"
 }
